@@ -1,45 +1,24 @@
 #!/bin/sh
-# Runs the registered quick check(s) of the property each seeded change was written against (and a related one where
-# the change is visible through another property) and writes /verif/seeded/results.txt. Reverts /repo after each.
-OUT=/verif/seeded/results.txt
-: > $OUT
-run() { id=$1; shift; echo "== $id" >> $OUT; /verif/tools/seeded_run.sh /verif/seeded/$id/patch.diff "$@" 2>&1 | tail -$# >> $OUT; }
-run C01-1 C01 C04
-run C01-2 C01 C04
-run C01-3 C01
-run C02-1 C02 C07
-run C02-2 C02 C04
-run C02-3 C02 C01
-run C02-4 C02
-run C03-1 C03
-run C03-2 C03
-run C03-3 C03
-run C04-1 C04
-run C04-2 C04
-run C04-3 C04 C01
-run C05-1 C05
-run C05-2 C05
-run C05-3 C05
-run C07-1 C07 C02
-run C07-2 C07
-run C07-3 C07
-run C08-1 C08
-run C08-2 C08
-run C08-3 C08
-run C12-1 C12
-run C12-2 C12
-run C12-3 C12
-run C14-1 C14
-run C14-2 C14
-run C14-3 C14
-run C15-1 C15
-run C15-2 C15
-run C15-3 C15
-run C15-4 C15
-run C18-1 C18
-run C18-2 C18
-run C18-3 C18
-run C19-1 C19
-run C19-2 C19
-run C19-3 C19
-echo finished >> $OUT
+# usage: seeded_all.sh [--scratch <dir>] [id ...]
+# Runs, for every seeded change of seeded/plan.txt (or the given ids), the registered quick check(s) of the property the
+# change was written against (and a related one where the change is visible through another property) and appends the
+# raw lines to seeded/results.txt. Without --scratch the change is applied to /repo itself and reverted afterwards;
+# with --scratch <dir> everything happens in a scratch environment made by tools/scratch_env.sh (copy of the harness as
+# it is now + a worktree of /repo's HEAD), so that /repo and /verif stay free for other work.
+cd "$(dirname "$0")/.." || exit 2
+SCRATCH=""
+if [ "${1:-}" = "--scratch" ]; then SCRATCH="$2"; shift 2; tools/scratch_env.sh "$SCRATCH" >/dev/null || exit 2; fi
+OUT="${SEEDED_OUT:-/verif/seeded/results.txt}"
+IDS="$*"
+while read -r id checks; do
+    [ -z "$id" ] && continue
+    if [ -n "$IDS" ]; then case " $IDS " in *" $id "*) ;; *) continue ;; esac; fi
+    echo "== $id" >> "$OUT"
+    n=$(echo $checks | wc -w)
+    if [ -n "$SCRATCH" ]; then
+        tools/seeded_scratch.sh "$SCRATCH" /verif/seeded/$id/patch.diff $checks 2>&1 | tail -$n >> "$OUT"
+    else
+        tools/seeded_run.sh /verif/seeded/$id/patch.diff $checks 2>&1 | tail -$n >> "$OUT"
+    fi
+done < seeded/plan.txt
+echo "finished $(date +%H:%M)" >> "$OUT"
